@@ -253,22 +253,18 @@ def prepare (T : Tables) (a : Args) : Prep :=
 
 /-! ### the checks (solver.py:1011-1083) -/
 
-abbrev Chk := Unit → Except Exc (Option Msg)
+/-- one `if exit_info is None and <test>: exit_info = ExitInformation(EXIT_INPUT_ERROR, <msg>)` -/
+abbrev Test := (Unit → Except Exc Bool) × Msg
 
-/-- `if exit_info is None and <test>: exit_info = …` in sequence: first failing check wins, a later
-    test is not even evaluated (so it cannot raise) once one has failed. -/
-def firstM : List Chk → Except Exc (Option Msg)
+/-- the tests in sequence: the first one that holds wins; a later test is not even evaluated
+    (so it cannot raise) once one has held; an exception in a test that *is* evaluated propagates. -/
+def firstM : List Test → Except Exc (Option Msg)
   | [] => .ok none
-  | c :: cs =>
-    match c () with
+  | t :: ts =>
+    match t.1 () with
     | .error e => .error e
-    | .ok (some m) => .ok (some m)
-    | .ok none => firstM cs
-
-def cmpChk (r : Except Exc Bool) (m : Msg) : Except Exc (Option Msg) :=
-  match r with
-  | .error e => .error e
-  | .ok b => .ok (if b then some m else none)
+    | .ok true => .ok (some t.2)
+    | .ok false => firstM ts
 
 /-- `np.min(xu - xl) < 2.0 * rhobeg` -/
 def gapLt (gap : F) (rhobeg : PyVal) : Except Exc Bool :=
@@ -276,22 +272,21 @@ def gapLt (gap : F) (rhobeg : PyVal) : Except Exc Bool :=
   | some r => .ok (F.lt gap (F.dbl r))
   | none => .error .typeError
 
-/-- solver.py:1013-1046 -/
-def argChecks (e : Eff) : List Chk := [
-  fun _ => if e.hasH then
-             (if !e.hasProx then .ok (some .proxMissing)
-              else if e.lh.isNone then .ok (some .lhMissing)
-              else cmpChk (pyLe e.lh zeroF) .lhNonpos)
-           else .ok none,
-  fun _ => cmpChk (pyLt e.npt (.int ((e.n : Int) + 1))) .nptSmall,
-  fun _ => cmpChk (pyLe e.rhobeg zeroF) .rhobegNonpos,
-  fun _ => cmpChk (pyLe e.rhoend zeroF) .rhoendNonpos,
-  fun _ => cmpChk (pyLe e.rhobeg e.rhoend) .rhobegLeRhoend,
-  fun _ => cmpChk (pyLe e.maxfun (.int 0)) .maxfunNonpos,
-  fun _ => .ok (if e.x0shape != [e.n] then some .x0NotVector else none),
-  fun _ => .ok (if e.x0shape != e.xl then some .xlShape else none),
-  fun _ => .ok (if e.x0shape != e.xu then some .xuShape else none),
-  fun _ => cmpChk (gapLt e.gap e.rhobeg) .gapSmall ]
+/-- solver.py:1013-1046.  The `if h is not None: if … elif … elif …` block is three tests in a row
+    (the second is reached only when `prox_uh` is present, the third only when `lh` is present). -/
+def argTests (e : Eff) : List Test := [
+  (fun _ => .ok (e.hasH && !e.hasProx), .proxMissing),
+  (fun _ => .ok (e.hasH && e.lh.isNone), .lhMissing),
+  (fun _ => if e.hasH then pyLe e.lh zeroF else .ok false, .lhNonpos),
+  (fun _ => pyLt e.npt (.int ((e.n : Int) + 1)), .nptSmall),
+  (fun _ => pyLe e.rhobeg zeroF, .rhobegNonpos),
+  (fun _ => pyLe e.rhoend zeroF, .rhoendNonpos),
+  (fun _ => pyLe e.rhobeg e.rhoend, .rhobegLeRhoend),
+  (fun _ => pyLe e.maxfun (.int 0), .maxfunNonpos),
+  (fun _ => .ok (e.x0shape != [e.n]), .x0NotVector),
+  (fun _ => .ok (e.x0shape != e.xl), .xlShape),
+  (fun _ => .ok (e.x0shape != e.xu), .xuShape),
+  (fun _ => gapLt e.gap e.rhobeg, .gapSmall) ]
 
 /-- `params(a)` and then, if truthy, `params(b)`: both truthy? (the nested `if`s of solver.py:1057-1065) -/
 def bothTruthy (pl : PList) (a b : String) : Except Exc Bool :=
@@ -362,7 +357,7 @@ def optionChecks (pl : PList) (bad : List String) : Except Exc (Option Msg × PL
 
 /-- solver.py:1011-1083 as a whole -/
 def checkInputs (T : Tables) (e : Eff) : Except Exc (Option Msg × PList) :=
-  match firstM (argChecks e) with
+  match firstM (argTests e) with
   | .error x => .error x
   | .ok r1 =>
     match pyLe e.maxfun e.npt with                      -- solver.py:1048, unconditional
